@@ -15,13 +15,16 @@ if "plan" in spec:
             if _d not in sys.path:
                 sys.path.insert(0, _d)
     from nada_dsl.compiler_frontend import nada_dsl_to_nada_mir, nada_compile
-    from nada_dsl.compile import compile_script
+    from nada_dsl.compile import compile_script, compile_string
     outs, mirs, log = {}, {}, []
+    held = []
     for st in spec["plan"]:
         try:
             if st[0] == "write":
                 with open(st[1], "w", encoding="utf-8") as _f:      # the user edits a file between two compilations
                     _f.write(st[2])
+                if len(st) > 3:       # ... at a given time of day: nanoseconds after a fixed whole second
+                    os.utime(st[1], ns=(1_700_000_000 * 10**9 + st[3], 1_700_000_000 * 10**9 + st[3]))
                 log.append("written")
                 continue
             if st[0] == "trace":
@@ -29,6 +32,15 @@ if "plan" in spec:
                 ns = {"__name__": "prog"}
                 exec(compile(src, st[1], "exec"), ns)
                 outs[st[2]] = ns["nada_main"]()
+            elif st[0] == "string":
+                import base64 as _b64
+                mirs[st[2]] = {"ok": json.loads(compile_string(_b64.b64encode(st[1].encode("utf-8")).decode()).mir)}
+            elif st[0] == "compile_dict":
+                # the dict API: the caller keeps the returned MIR while the process goes on compiling other programs
+                _d = nada_dsl_to_nada_mir(outs[st[1]])
+                _snap = json.dumps(_d, sort_keys=True)
+                held.append((st[1], _d, _snap))
+                mirs[st[1]] = {"ok": json.loads(_snap)}
             elif st[0] == "compile":
                 mirs[st[1]] = {"ok": json.loads(nada_compile(outs[st[1]]))}      # the public entry point (what compile_script calls)
             else:
@@ -38,6 +50,12 @@ if "plan" in spec:
             log.append(type(e).__name__)
             if st[0] not in ("trace", "write"):
                 mirs[st[-1]] = {"exc": type(e).__name__, "msg": str(e)[:300], "phase": st[0]}
+    for _slot, _d, _snap in held:
+        _now = json.dumps(_d, sort_keys=True)
+        if _now != _snap:
+            _a, _b = json.loads(_snap), json.loads(_now)
+            mirs[_slot] = {"exc": "ReturnedMirChangedLater", "phase": "held",
+                           "msg": "fields of the MIR returned earlier that read differently now: " + ", ".join(k for k in _a if _a[k] != _b.get(k))}
     r = mirs.get(spec["report"], {"exc": "NotCompiled", "msg": "", "phase": "plan"})
     r["log"] = log
     print(json.dumps(r))
